@@ -9,10 +9,10 @@ def C(text, technique, design, note=""):
 CLAIMED = {
  "C01": C("Theorems: the line-loop machine of the model (current directive, tail line, pending-newline flag) equals the README-shaped specification parse -> one chunk per item -> splice for every line sequence, mode, pass and state (machine_refines_spec), and the text handed to the sink is the splice of the chunks. Tie: generated in-domain projects, implementation vs model byte for byte, plus the repository's golden fixtures.",
           "Coq proof (fusion by induction over lines) + differential correspondence on generated projects", "6 (C01)",
-          "Partial: the per-directive meaning (exec_directive) is shared by machine and specification and tied to the code only by the correspondence."),
+          "Also proved: an item fails exactly for the enumerated prescribed errors and a file fails exactly when some item does, a tag is left unused, or the sink fails (item_error_iff, machine_err_iff). Partial: the per-directive meaning (exec_directive) is shared by machine and specification and tied to the code by the correspondence."),
  "C02": C("Theorems over every reachable state of the coordinator transition system (any in-flight task may complete next, any protocol-respecting result, any number of files): a final pass is in flight only when every reported dependency is finished, at most one task per file is in flight, finished is forever. Tie: every digraph on <=3 files (and every DAG on 4) x every input subset x every completion order through the scheduling hooks: trace, verdict and bytes against the model, outputs against a Python one-at-a-time build, stale outputs planted, snapshots taken by commands placed after the dependency directives.",
-          "Coq proof (inductive invariant of the coordinator) + exhaustive controlled-schedule correspondence", "6 (C02)",
-          "Partial: the theorem shows the ordering invariant (nothing to interleave); the byte-level equality with the sequential build is established by the exhaustive sweep, not yet as a theorem. Real interleavings of system calls inside overlapping workers are not modelled."),
+          "Coq proof (inductive coordinator invariant; frame, commutation and confluence of passes) + exhaustive controlled-schedule correspondence", "6 (C02), 12",
+          "Also proved: schedule_independence (two successful runs of the model under ANY two schedules end in the same tree, for projects without temp directives and with pairwise disjoint footprints), passes with disjoint footprints commute, a first pass reports exactly its .txtpp-backed include/after targets and never reads their outputs. Partial: schedule independence with temp directives, and equality with a one-file-at-a-time build, rest on the exhaustive sweep. Real interleavings of system calls inside overlapping workers are not modelled."),
  "C03": C("Theorems: no task completes twice, done/total counters are exact, the number of tasks is bounded by 2*files+dirs, success implies every seen file finished, and txtpp_run terminates with fuel proportional to the number of .txtpp files and directories of the initial tree (txtpp_run_terminates), for every schedule. Tie: the exhaustive graph x schedule sweep with execution-count marker files, aliased and duplicate inputs.",
           "Coq proof (invariant + termination measure) + exhaustive controlled-schedule correspondence", "6 (C03)",
           "Partial: termination of the child processes themselves is outside the model."),
@@ -23,24 +23,24 @@ CLAIMED = {
           "Coq proof (invariant, induction on Acc) + exhaustive controlled-schedule correspondence", "6 (C05)"),
  "C06": C("Theorems: the streaming verifier accepts iff the concatenation of all chunks equals the existing file, for every chunking; a missing output is a mismatch; a verify pass logs no event on the output path and unlogged paths keep their bytes. Tie: build, tamper (flip/insert/delete/truncate/extend/empty/remove, option flip), verify: verdict and bytes+mtime+inode of every output.",
           "Coq proof (induction over chunks; event-log frame) + history correspondence", "6 (C06)",
-          "Partial: the lifting 'verify verdict = Ok iff every output equals what build would write' through the coordinator is covered by the correspondence."),
+          "Also proved at pass level: verify_pass_iff (a final verify pass succeeds iff the existing output holds exactly the text an in-memory build produces) and its corollaries for any differing byte / missing file. Partial: the lifting through the coordinator (dependencies verified too) is covered by the correspondence."),
  "C07": C("Theorems: a clean pass only logs removals, never consults the command oracle (the result is independent of it), never waits for dependencies, touches only its own output and temp targets, and unlogged paths keep their bytes. Tie: build then clean on generated projects (erroneous directives included): tree restored exactly, no marker written, no .txtpp deleted.",
           "Coq proof (event-log invariant, oracle independence) + build/clean history correspondence", "6 (C07)",
-          "Partial: build_then_clean_restores is established by the correspondence, not as a theorem."),
+          "Also proved at pass level: build_then_clean_restores_pass (a successful final Build pass followed by a Clean pass restores the tree when nothing was lying at the output and temp targets), clean removes the output, cleaning twice equals once. Partial: the whole-run statement (several files, first passes) is established by the correspondence."),
  "C08": C("Theorems (sink level): build truncates then appends; the verdict and result of temp writes and of --needed do not depend on the old bytes at the generated path. Tie: every generated project rebuilt from pre-states with absent/exact/prefix/extended/empty/stale/non-UTF-8 content at each generated path, and rebuilt twice: verdict and whole tree must equal the build from the clean tree.",
           "Coq proof (case analysis of the sinks) + pre-state history correspondence", "6 (C08)",
-          "Partial: whole-run hermeticity and crash repair are established by the pre-state sweep; SIGKILL histories are not part of the quick tier."),
+          "Also proved: a pass depends on the tree only through look-ups (pp_run_ext), a Build pass ignores what lies at its output, the frame theorem, and for whole runs stale_outputs_irrelevant(_deps): two initial trees that differ only at output paths give the same verdict, trace and coordinator state under the same schedule, and agree afterwards on every rewritten output. Partial: stale TEMP files at whole-run level and crash repair rest on the pre-state sweep and on SIGKILL histories of the real binary (25 quick / 400 thorough)."),
  "C09": C("Theorems (sink level): --needed buffers, writes nothing when the file is already the fresh text, brings a stale file to exactly the fresh text; a temp file with correct content is not rewritten in any mode. Tie: pre-states x {needed, build, verify}: needed = build byte for byte, inode+mtime of correct files unchanged, stale ones updated.",
           "Coq proof (case analysis of the sinks) + inode/mtime history correspondence", "6 (C09)",
-          "Partial: needed_equiv_build for whole runs is established by the correspondence."),
+          "Also proved at pass level: needed_pass_vs_build_pass (same verdict and same tree as a Build pass, modulo the output path on errors). Partial: the whole-run statement is established by the correspondence."),
  "C10": C("Theorems: every event of a pass (any mode, any outcome) is on the output path or on the lexical normalisation of a temp target named in the source; OS resolution equals lexical normalisation; unlogged paths keep their bytes; the output is beside the source and differs from it. Tie: full-tree snapshots (bytes, inode, mtime) with decoys, four modes: the touched set equals the model's event log.",
           "Coq proof (event-log invariant over the item list) + full-tree snapshot correspondence", "6 (C10)"),
  "C11": C("Theorems: a name is a source iff its last or second-to-last extension is txtpp; the three documented shapes and dotted stems map to the documented output names; candidates of an output name map back; outputs are sources only for double-txtpp names. Tie: exhaustive name sweep through is_txtpp_file/remove_txtpp, random trees x input lists x recursion x base directory: which outputs exist, verdict.",
           "Coq proof (case analysis on std::path extension semantics) + exhaustive name sweep and tree correspondence", "6 (C11)",
-          "Partial: processed_set_spec (closure under dependencies) is covered by inputs_are_processed / dependencies_are_processed of C03 and by the correspondence."),
+          "Also proved: every file given a pass is an input, was returned by an earlier scan, or was reported by an earlier first pass (txtpp_run_only_required); clean follows no dependencies. Together with inputs_are_processed / dependencies_are_processed of C03 this is the processed-set statement."),
  "C12": C("Theorems (ingredients): lines are free of LF, and free of CR when CR occurs only before LF; tag content is re-joined with the file's ending (replace_line_ending_uniform). Tie: generated projects with independently mixed endings in first line, later lines, includes, command output, temp bodies, tag contents: byte-class scan of every generated file of the implementation.",
           "Coq proof (induction over lines) + byte-class scan correspondence", "6 (C12)",
-          "Partial: the composite theorem output_le_uniform over whole files is not yet proved; the scan covers it."),
+          "Proved for whole files through the in-memory sink (output_le_uniform) and for temp bodies; the Build sink receives the same chunks (correspondence). First-line sniffing on very long first lines is covered by the scan only."),
  "C13": C("Theorems: the option is consulted only in the epilogue; with it on, the buffer handed to the sink is the buffer with it off plus the line ending iff the pending-newline flag is set; the text is splice(chunks). Tie: every generated source built with the option on and off: identical or on = off + line ending, temp files identical, sources ending in a text line.",
           "Coq proof (epilogue case analysis, splice lemma) + on/off pair correspondence", "6 (C13)"),
  "C14": C("Theorems: stored names are pairwise prefix-free in every reachable state; create fails exactly when documented; inject's result is invariant under permutation of the hash map (determinism); first occurrence replaced by normalised content then deleted; two tags left to right; overlapped occurrence left alone; never panics. Tie: exhaustive sweep (<=3 tags over prefix-related names x lines of <=5 symbols) with 8 fresh hash seeds per case, whole-file lifecycle cases.",
